@@ -87,6 +87,13 @@ def self_supporting(st, S, U, wit=None):
         if key not in _SS_CACHE:
             _SS_CACHE[key] = _self_supporting(st, S, U, None)
         return _SS_CACHE[key]
+    if isinstance(wit, z3.FuncDeclRef):
+        # same formula object for the same (heap, S, U, w): instances then match syntactically
+        key = (st.H('$elems').get_id(), st.H('jobs').get_id(), st.H('required').get_id(), S.get_id(), U.get_id(),
+               wit.get_id())
+        if key not in _SS_CACHE:
+            _SS_CACHE[key] = _self_supporting(st, S, U, wit)
+        return _SS_CACHE[key]
     return _self_supporting(st, S, U, wit)
 
 
